@@ -261,3 +261,12 @@ package dsl
 // Rewriter objects have unexported fields and are only built by Visit/VisitWithContext/Rewrite/RewriteWithContext).
 //@ callback-parametric file pkg/dsl/visitor.go
 //@ callback-parametric file pkg/dsl/rewriter.go
+
+// ---- model invariants: the slices of the model never hold nil elements (guaranteed by a SAFE-elemnil obligation at
+// every element store in swept code; appends of parser-built nodes are address-of-composite literals) -----------
+//@ elems-nonnil *dsl.ProtocolStep *dsl.Field *dsl.TypeCase *dsl.ArrayDimension *dsl.EnumValue *dsl.ComputedField
+//@ elems-nonnil *dsl.Namespace *dsl.ProtocolDefinition *dsl.GenericTypeParameter
+
+// The schema string of a protocol: a function of the protocol, the symbol table and the (unmodified) model.
+//@ func GetProtocolSchemaString
+//@   pure
